@@ -60,6 +60,22 @@ func DrawSpec(t *rapid.T) SpecCase {
 	return SpecCase{Meta: Meta{Doc: doc, TimeFormat: tf}, Config: Configs[rapid.IntRange(0, len(Configs)-1).Draw(t, "config")]}
 }
 
+// DrawBatchECMA is DrawBatch for checks that compare runs with each other (C19): half of the
+// documents carry patterns that need ogen's backtracking matcher.
+func DrawBatchECMA(t *rapid.T) BatchCase {
+	var b BatchCase
+	for i := 0; i < 12; i++ {
+		if i%2 == 0 {
+			b.Specs = append(b.Specs, DrawSpec(t))
+			continue
+		}
+		tf := rapid.SampledFrom([]string{"date-time", "date", "time"}).Draw(t, "timeformat")
+		doc := specgen.GenExchangeDoc(t, specgen.ExchangeOptions{TimeFormat: tf, ECMAPatterns: true})
+		b.Specs = append(b.Specs, SpecCase{Meta: Meta{Doc: doc, TimeFormat: tf}, Config: Configs[rapid.IntRange(0, len(Configs)-1).Draw(t, "config")]})
+	}
+	return b
+}
+
 func DrawBatch(t *rapid.T) BatchCase {
 	var b BatchCase
 	for i := 0; i < 12; i++ {
